@@ -85,6 +85,10 @@ const prelude = `(set-option :smt.mbqi false)
 (declare-fun segend (Str) Int)
 (assert (forall ((s Str)) (! (=> (>= (slen s) 1) (and (<= 1 (segend s)) (<= (segend s) (slen s)) (=> (< (segend s) (slen s)) (= (sat s (segend s)) 47)))) :pattern ((segend s)))))
 (assert (forall ((s Str) (j Int)) (! (=> (and (<= 1 j) (< j (segend s)) (>= (slen s) 1)) (not (= (sat s j) 47))) :pattern ((segend s) (sat s j)))))
+; segment end at an absolute position: least j > i with s[j] == '/' (else len s)
+(declare-fun segat (Str Int) Int)
+(assert (forall ((s Str) (i Int)) (! (=> (and (<= 0 i) (< i (slen s))) (and (< i (segat s i)) (<= (segat s i) (slen s)) (=> (< (segat s i) (slen s)) (= (sat s (segat s i)) 47)))) :pattern ((segat s i)))))
+(assert (forall ((s Str) (i Int) (j Int)) (! (=> (and (<= 0 i) (< i j) (< j (segat s i)) (< i (slen s))) (not (= (sat s j) 47))) :pattern ((segat s i) (sat s j)))))
 (define-fun startsSlash ((s Str)) Bool (and (>= (slen s) 1) (= (sat s 0) 47)))
 (define-fun sfirst ((s Str)) Str (ite (startsSlash s) (ssub s 0 (segend s)) s))
 (define-fun srest ((s Str)) Str (ite (startsSlash s) (ssub s (segend s) (slen s)) str_empty))
